@@ -43,7 +43,7 @@ func (h *c05Graffiti) Graffiti(ctx context.Context, _ phase0.Slot, _ phase0.Vali
 		select {
 		case <-ctx.Done():
 			return nil, ctx.Err()
-		case <-time.After(3 * time.Second):
+		case <-time.After(vnd.Delay(3 * time.Second)):
 		}
 	}
 	if h.fail {
@@ -416,7 +416,7 @@ func c05Run(e *c05Env) {
 	e.build()
 	// the job context: Propose is given a deadline so that the run ends even
 	// when no relay ever answers (that hang is C20's subject)
-	ctx, cancel := context.WithTimeout(context.Background(), 30*time.Second)
+	ctx, cancel := context.WithTimeout(context.Background(), vnd.Delay(30*time.Second))
 	defer cancel()
 	e.s.Propose(ctx, e.duty)
 	vnd.Quiesce()
@@ -550,7 +550,7 @@ func VerifC16_ProposeBlindedWithoutAuction() {
 	vnd.Assume(e.blinded)
 	vnd.Assume(e.pslot == e.slot)
 	e.build()
-	ctx, cancel := context.WithTimeout(context.Background(), 30*time.Second)
+	ctx, cancel := context.WithTimeout(context.Background(), vnd.Delay(30*time.Second))
 	defer cancel()
 	e.s.Propose(ctx, e.duty)
 	vnd.Quiesce()
